@@ -39,7 +39,7 @@ def main():
         for patch, res in ex.map(run, patches):
             if res:
                 bad += 1
-            print(patch.name, "ALARM " + json.dumps(res) if res else "silent")
+            print(patch.name, "ALARM " + json.dumps(res) if res else "silent", flush=True)
     print(f"benign patches: {len(patches)}  with alarms: {bad}")
 
 
